@@ -46,4 +46,42 @@ structure RecPair where
 structure TimeCodec where
   unitNs : Nat
 
+/-- One arm of the `match` over the stored record versions inside a decoder's loop, as far as an
+accumulator (a `let mut` local that ends up in a field of the struct) is concerned. -/
+structure DecodeArm where
+  /-- the arm's pattern, e.g. `DbValueOauth2Session::V3` -/
+  variant : String
+  /-- the arm's value carries an element of the value set (it is not `None` / `Err` / diverging) -/
+  yields : Bool
+  /-- the arm updates the accumulator, directly in the arm (not under a further condition) -/
+  updates : Bool
+
+/-- Where one field of `ValueSetX { … }` gets its value from in one struct literal of a decoder.
+`kind`: 0 = computed directly from the stored data (an expression, an immutable binding, a
+parameter); 1 = a `let mut` accumulator (`uniform` updates in the loop body outside every `match`
+arm / `if`, and the arms of the `match` that updates it); 2 = a constant (the stored data does not
+reach the field). -/
+structure DecodeField where
+  field : Nat
+  name : String
+  kind : Nat
+  uniform : Nat
+  arms : List DecodeArm
+  remark : String
+
+/-- How one decoder reached from `from_db_valueset_v2` builds its value set struct. -/
+structure DecodeCtor where
+  /-- index of the struct in `valuesetDispatch.memNames` -/
+  struct : Nat
+  structName : String
+  /-- the functions followed from the dispatch, e.g. `from_dbvs2 → from_dbv_iter` -/
+  fn : String
+  /-- the fields of `pub struct ValueSetX { … }` in declaration order -/
+  nFields : Nat
+  fieldNames : List String
+  /-- the canonical in-memory constructor (`new` / `from_iter`) the decoder goes through, if it does -/
+  via : Option String
+  /-- otherwise: every `ValueSetX { … }` literal of the decoder, one `DecodeField` per field -/
+  literals : List (List DecodeField)
+
 end Kanidm.StoreCodec
